@@ -45,7 +45,7 @@ func admitWorld(pool string, maxConn, maxReq uint64) *world {
 		if err == nil {
 			w.pool = sx.NewConnPool(context.Background(), mxCodecInst, w.host)
 			ctx := variable.NewVariableContext(context.Background())
-			waitFor(2e9, func() bool { return w.pool.CheckAndInit(ctx) })
+			waitFor(20e9, func() bool { return w.pool.CheckAndInit(ctx) })
 		}
 	}
 	if err != nil {
@@ -105,7 +105,7 @@ func runAdmit(pool, limit string, n int) admitRes {
 	for _, l := range leases {
 		l.sender.GetStream().ResetStream(types.StreamLocalReset)
 	}
-	waitFor(5e8, func() bool {
+	waitFor(20e9, func() bool {
 		return w.rm.Requests().Cur() == 0 && w.host.HostStats().UpstreamRequestActive.Count() == 0
 	})
 	r.drainedReq, r.drainedGauge = w.rm.Requests().Cur(), w.host.HostStats().UpstreamRequestActive.Count()
